@@ -7,7 +7,7 @@ from tfv.core import Violation, run_async
 from tfv.data import Tree
 from tfv.model import print_document
 from tfv.mutate import mutants
-from tfv.props import c01
+from tfv.props import c01, c14
 
 ID = "C07"
 LEVEL = "fault_enumeration"
@@ -43,6 +43,14 @@ async def run_mutant(h, spec):
     h.set_tree(Tree(spec["schema"], None, copy.deepcopy(spec["tree"])))
     printed = print_document(spec["doc"])
     op = spec["op"]
+    if spec.get("subscribe"):
+        h.rs.events = list(spec.get("events") or ())
+        h.rs.source_calls = []
+        h.rs.yielded = 0
+        out = []
+        async for r in h.engine.subscribe(printed.text, operation_name=op, context=h.ctx_token, variables=copy.deepcopy(spec["variables"])):
+            out.append(r)
+        return printed, {"$stream": out}
     resp = await h.engine.execute(
         printed.text, operation_name=op, context=h.ctx_token, variables=copy.deepcopy(spec["variables"]),
         initial_value=h.root_value(spec["root"]),
@@ -54,7 +62,15 @@ def check_mutant(spec, h=None):
     if h is None:
         h = run_async(c01.make_harness(spec["schema"], spec["plan"]))
     printed, resp = run_async(run_mutant(h, spec))
-    ctx = "\nrewrite=%s site=%s\nquery:\n%s\nvariables=%r op=%r" % (spec["rewrite"], spec["site_class"], printed.text, spec["variables"], spec["op"])
+    stream_note = ""
+    if "$stream" in resp:
+        stream = resp["$stream"]
+        stream_note = " [subscribe yielded %d responses; source started: %r]" % (len(stream), h.rs.source_calls)
+        if len(stream) != 1 or h.rs.source_calls or h.rs.yielded:
+            resp = {"data": {"$stream": len(stream)}, "errors": None}  # forces the refusal test below to fail with details
+        else:
+            resp = stream[0]
+    ctx = stream_note + "\nrewrite=%s site=%s\nquery:\n%s\nvariables=%r op=%r" % (spec["rewrite"], spec["site_class"], printed.text, spec["variables"], spec["op"])
     ran = []
     if h.calls:
         ran.append("resolvers %r" % [c[1] for c in h.calls][:4])
@@ -73,12 +89,28 @@ def check_mutant(spec, h=None):
         raise Violation(spec, "invalid document not refused (%s); response=%r%s" % (", ".join(what), str(resp)[:400], ctx), tag="%s|%s" % (spec["rewrite"], spec["site_class"]))
 
 
+def make_sub_harness(schema, plan):
+    c14.clean_registry()
+    h = c14.SubHarness(schema, plan, None)
+    run_async(h.build())
+    return h
+
+
 def case(c, stats):
-    schema, plan = c01.build_schema(c, SCHEMA_OPTS)
-    h = run_async(c01.make_harness(schema, plan))
-    spec, gstats = c01.build_request(c, schema, plan, DOC_OPTS)
-    # make sure the carrier itself is fine (and draw its data)
-    tree, ex, expected, root = c01.reference(spec, c)
+    subscription = c.maybe(25)
+    schema, plan = c01.build_schema(c, dict(SCHEMA_OPTS, subscription=subscription))
+    extra = {}
+    if subscription:
+        plan["default_fields"] = []
+        h = make_sub_harness(schema, plan)
+        spec = c14.build_request(c, schema, plan, dict(c14.DOC_OPTS, max_ops=3))
+        root = schema["roots"]["subscription"]
+        extra = {"subscribe": True, "events": spec["events"]}
+    else:
+        h = run_async(c01.make_harness(schema, plan))
+        spec, gstats = c01.build_request(c, schema, plan, DOC_OPTS)
+        # make sure the carrier itself is fine (and draw its data)
+        tree, ex, expected, root = c01.reference(spec, c)
     ms = list(mutants(schema, spec["doc"]))
     if len(ms) > MAX_MUTANTS_PER_CARRIER:
         stride = len(ms) / MAX_MUTANTS_PER_CARRIER
@@ -91,6 +123,7 @@ def case(c, stats):
         if op is None and len(ops) > 1:
             op = None  # ambiguous anonymous selection: still must be refused
         mspec = {"schema": schema, "plan": plan, "doc": mdoc, "op": op, "variables": spec["variables"], "tree": spec["tree"], "root": root, "rewrite": rewrite, "site_class": site_class}
+        mspec.update(extra)
         try:
             check_mutant(mspec, h)
         except Violation as v:
@@ -113,7 +146,7 @@ def run_worker(seed, tier, index, nworkers):
 
 
 def replay(spec):
-    check_mutant(spec, None)
+    check_mutant(spec, make_sub_harness(spec["schema"], spec["plan"]) if spec.get("subscribe") else None)
 
 
 TECHNIQUE = "fault enumeration over generated carriers: every rewrite of a violation catalogue at every site of Hypothesis-generated valid documents; oracle = refusal + zero harness-side calls"
